@@ -295,6 +295,9 @@ class AbstractJob:                                      # pylint: disable=R0902
             style['color'] = 'red'
             style['penwidth'] = 2
         else:
+            # be explicit: in DOT a nested cluster inherits the attributes
+            # of its enclosing cluster, e.g. the color of a critical scheduler
+            style['color'] = 'black'
             style['penwidth'] = 0.5
         return style
 
